@@ -28,6 +28,8 @@ pub struct Start {
     pub alphabet: &'static [&'static str],
     pub len_quick: usize,
     pub len_thorough: usize,
+    /// depth of the second, deeper traced search in the quick tier (thorough: one more)
+    pub deep_quick: u64,
 }
 
 pub const STARTS: &[Start] = &[
@@ -37,6 +39,7 @@ pub const STARTS: &[Start] = &[
         alphabet: &["g1f3", "f3g1", "b1c3", "c3b1", "e2e4", "g8f6", "f6g8", "b8c6", "c6b8", "e7e5"],
         len_quick: 8,
         len_thorough: 10,
+        deep_quick: 3,
     },
     Start {
         name: "K+R v k with the Q right: same placement with and without the right",
@@ -44,6 +47,7 @@ pub const STARTS: &[Start] = &[
         alphabet: &["a1b1", "b1a1", "e1d1", "d1e1", "a1a2", "a2a1", "e8d8", "d8e8", "e8e7", "e7e8"],
         len_quick: 8,
         len_thorough: 10,
+        deep_quick: 4,
     },
     Start {
         name: "en-passant capture available at the start: same placement later without it",
@@ -51,6 +55,7 @@ pub const STARTS: &[Start] = &[
         alphabet: &["g8f6", "f6g8", "b8c6", "c6b8", "e4f3", "g1f3", "f3g1", "b1c3", "c3b1", "g1h3", "h3g1"],
         len_quick: 7,
         len_thorough: 9,
+        deep_quick: 3,
     },
     Start {
         name: "the two sides hold different castling rights while knights shuffle; rook moves change the rights",
@@ -58,6 +63,15 @@ pub const STARTS: &[Start] = &[
         alphabet: &["a1b3", "b3a1", "a1c2", "c2a1", "h1g1", "g1h1", "h8g6", "g6h8", "h8f7", "f7h8", "a8b8", "b8a8"],
         len_quick: 8,
         len_thorough: 9,
+        deep_quick: 4,
+    },
+    Start {
+        name: "the other asymmetric rights: White may castle queen side, Black king side; rook round trips drop one right",
+        start: "1n2k2r/8/8/8/8/8/8/R3K1N1 w Qk - 0 1",
+        alphabet: &["g1f3", "f3g1", "g1h3", "h3g1", "a1b1", "b1a1", "b8c6", "c6b8", "b8a6", "a6b8", "h8g8", "g8h8"],
+        len_quick: 7,
+        len_thorough: 9,
+        deep_quick: 3,
     },
     Start {
         name: "black to move first; rooks and kings shuffle, pawn moves in between",
@@ -65,6 +79,7 @@ pub const STARTS: &[Start] = &[
         alphabet: &["a8b8", "b8a8", "e8e7", "e7e8", "h7h6", "h1g1", "g1h1", "e1e2", "e2e1", "a2a3"],
         len_quick: 6,
         len_thorough: 9,
+        deep_quick: 4,
     },
     Start {
         name: "perpetual check: every reply to the queen's checks is forced (single legal move)",
@@ -72,6 +87,7 @@ pub const STARTS: &[Start] = &[
         alphabet: &["h4e1", "g1h2", "e1h4", "h2g1", "h4h5", "h5h4", "a2a1", "a1a2", "g8f8", "f8g8"],
         len_quick: 9,
         len_thorough: 11,
+        deep_quick: 4,
     },
 ];
 
@@ -591,6 +607,7 @@ pub fn run(tier: &str, seed: u64, out: &str) {
         }
         let alphabet: Vec<Mv> = s.alphabet.iter().map(|t| Mv::parse(t).unwrap()).collect();
         let l = if thorough { s.len_thorough } else { s.len_quick };
+        DEEP_DEPTH.store(if thorough { s.deep_quick + 1 } else { s.deep_quick }, Ordering::Relaxed);
         let mut hs = Vec::new();
         histories(&p0, &alphabet, l, &mut Vec::new(), &mut hs);
         // vacuity guard: every move of the alphabet must occur in some enumerated history
@@ -644,6 +661,7 @@ pub fn run(tier: &str, seed: u64, out: &str) {
         if rep.saturated() {
             break;
         }
+        DEEP_DEPTH.store(if f.start == "startpos" { 3 } else { 4 } + thorough as u64, Ordering::Relaxed);
         let mut cases: Vec<(usize, bool)> = Vec::new();
         for g in 0..=gmax {
             cases.push((g, false));
@@ -688,7 +706,7 @@ pub fn run(tier: &str, seed: u64, out: &str) {
         .set("candidates_seen_exactly_once_before", st.once_seen.load(Ordering::Relaxed))
         .set("candidates_not_judged_en_passant_ambiguity", st.ambiguous.load(Ordering::Relaxed))
         .set("depth1_values_compared", st.values_compared.load(Ordering::Relaxed))
-        .set("deeper_search", J::obj().set("depth", DEEP_DEPTH.load(Ordering::Relaxed)).set("applied_to", if thorough { "every case" } else { "every single-command case (command pairs get the depth-1 search only)" }).set("rule", "after the depth-1 search the same engine searches the same root to this depth with the repetition trace on; the decision the real negamax takes at every visited node of ply >= 1 must equal 'occurred at least twice in the game given by the command (root included)'").set("node_visits_at_positions_never_seen_in_the_game", st.deep_plain.load(Ordering::Relaxed)).set("decisions_judged_at_positions_matching_a_game_position", st.deep_nodes.load(Ordering::Relaxed)).set("of_which_third_occurrences", st.deep_draws.load(Ordering::Relaxed)).set("of_which_seen_exactly_once", st.deep_once.load(Ordering::Relaxed)))
+        .set("deeper_search", J::obj().set("depth", if thorough { "4 (small material: 5)" } else { "3 (small material: 4)" }).set("applied_to", if thorough { "every case" } else { "every single-command case (command pairs get the depth-1 search only)" }).set("rule", "after the depth-1 search the same engine searches the same root to this depth with the repetition trace on; the decision the real negamax takes at every visited node of ply >= 1 must equal 'occurred at least twice in the game given by the command (root included)'").set("node_visits_at_positions_never_seen_in_the_game", st.deep_plain.load(Ordering::Relaxed)).set("decisions_judged_at_positions_matching_a_game_position", st.deep_nodes.load(Ordering::Relaxed)).set("of_which_third_occurrences", st.deep_draws.load(Ordering::Relaxed)).set("of_which_seen_exactly_once", st.deep_once.load(Ordering::Relaxed)))
         .set("starts", J::Arr(parts))
         .set("samples", J::Arr(samples))
         .set("exhaustive", false)
